@@ -119,6 +119,67 @@ def sec_outshape(rec, bins=(1, 2, 3, 4, 5, 6), patches=None):
                               key="C15/bin_image/block-origin", names={f"n{k}" for k in range(3)}, replay=rp)
 
 
+def zr(x):
+    return _real(lift(_coerce(x)))
+
+
+def sec_blocksum_dask(rec, shape=(5, 4, 7), b=2, patches=None):
+    """bin_image on a REAL dask array (synchronous scheduler) of symbolic voxels cut into irregular chunks: same block sums as for the in-memory array"""
+    import dask
+    import dask.array as da
+
+    dask.config.set(scheduler="synchronous")
+    L = load.load(["acryo._utils"], overrides={"da": da}, patches=patches)  # the real dask.array, also for isinstance checks
+    U = L["acryo._utils"]
+    rec.encodes("acryo/_utils.py:bin_image (dask input)")
+    rec.assume("real dask.array (from_array, slicing, reshape, sum, map_blocks ...) on object arrays of symbolic voxels")
+    vox = {idx: real("v_" + "_".join(map(str, idx))) for idx in np.ndindex(tuple(shape))}
+    base = np.empty(shape, dtype=object)
+    for idx, v in vox.items():
+        base[idx] = v
+    want_shape = tuple(s_ // b for s_ in shape)
+    layouts = [tuple((n,) for n in shape)]
+    # irregular layouts: the largest chunk a multiple of b, another one not; chunks of one voxel; chunks smaller than b
+    for ax in range(3):
+        n = shape[ax]
+        for first in {b, 2 * b, 1, n - 1} & set(range(1, n)):
+            rest = n - first
+            for split in ((first, rest), (rest, first), tuple([1] * n)):
+                lay = [(m,) for m in shape]
+                lay[ax] = split
+                if tuple(lay) not in layouts:
+                    layouts.append(tuple(lay))
+        # three chunks: the largest one holds whole bins, a smaller one does not
+        for split in ((2 * b, 1, n - 2 * b - 1), (b, 1, n - b - 1), (1, 2 * b, n - 2 * b - 1), (b, b + 1, n - 2 * b - 1)):
+            if all(c > 0 for c in split):
+                lay = [(m,) for m in shape]
+                lay[ax] = split
+                if tuple(lay) not in layouts:
+                    layouts.append(tuple(lay))
+    rp = _replay_region(b)
+    for lay in layouts:
+        tag = f"blocksum-dask[{shape},b={b},chunks={lay}]"
+
+        def run():
+            out = U.bin_image(da.from_array(base, chunks=lay), b)
+            return out.compute() if hasattr(out, "compute") else out
+
+        for p in explore(run, max_paths=5):
+            if not p.ok:
+                rec.fact(f"{tag}/runs", False, key="C15/bin_image-dask/raises", detail={"exc": repr(p.exc)[:300]}, reproduced=rp({})[0])
+                continue
+            out = np.asarray(p.result, dtype=object)
+            oksh = tuple(out.shape) == want_shape
+            rec.fact(f"{tag}/shape", oksh, key="C15/bin_image-dask/shape", detail={"got": list(out.shape), "want": list(want_shape)}, reproduced=True if oksh else rp({})[0])
+            if not oksh:
+                continue
+            goal = []
+            for j in np.ndindex(want_shape):
+                ref = sum((vox[tuple(b * ji + d for ji, d in zip(j, dd))].e for dd in np.ndindex((b,) * 3)), z3.RealVal(0))
+                goal.append(zr(out[j]) == ref)
+            rec.query(f"{tag}/block-sums", [], z3.And(*goal), key="C15/bin_image-dask/block-sum", replay=rp, twin=False)
+
+
 def _replay_region(b, order=1):
     """public API: linear ramp tomogram; binned-loader voxel k must equal the block sum of the
     b-times-larger subtomogram of the original loader"""
@@ -407,6 +468,8 @@ def sections(tier):
     for i in range(0, len(pairs), chunk):
         S.append((f"blocksum-{i // chunk}", "checks.c15", "sec_blocksum", {"pairs": pairs[i:i + chunk]}))
     S.append(("outshape", "checks.c15", "sec_outshape", {}))
+    for shp, b in (((5, 4, 7), 2), ((7, 3, 6), 3)) if quick(tier) else (((5, 4, 7), 2), ((7, 3, 6), 3), ((9, 8, 5), 4), ((6, 6, 6), 2)):
+        S.append((f"blocksum-dask-{shp}-b{b}".replace(" ", ""), "checks.c15", "sec_blocksum_dask", {"shape": shp, "b": b}))
     for b in range(1, 7):
         S.append((f"region-b{b}", "checks.c15", "sec_region", {"b": b}))
         S.append((f"region-batch-b{b}", "checks.c15", "sec_region_batch", {"b": b}))
